@@ -22,12 +22,16 @@ RULE = ("metamorphic on evaluate(): x vs g(x) for g in {zero padding at random o
 ASSUMPTIONS = ["memory layout (C/Fortran/negative strides) is outside the model, which sees logical content only: that part is correspondence-only",
                "for semantic input CCA numbering depends on scan order; results are compared only when no competing candidates tie (see known finding D15)"]
 TRUSTED = ["numpy/scipy/cc3d C code (modelled, not verified)"]
-LEVEL_TEXT = ("Props/C10.v: the geometry-free pipeline model depends only on the multiset of (reference, prediction) label pairs of the voxels: every "
-              "count, every IoU/Dice/RVD value, the candidate pairs are invariant under any permutation of the voxels and under adding or removing "
-              "background voxels (padding, cropping empty margins, flips, axis permutations are such maps); ASSD is invariant under translations, "
-              "axis flips, axis permutations and the enclosing box (Props/C07). Memory layout and the semantic-input tie-break are decided by "
-              "metamorphic correspondence on the implementation.")
-LEVEL_NOTE = "Coq: invariance of the building blocks under voxel permutation/background insertion + C07's isometry invariance; composition through CCA numbering by correspondence. Axioms only through C07's real-valued theorems."
+LEVEL_TEXT = ("Props/C10.v: the whole geometry-free pipeline depends only on the multiset of non-background (reference, prediction) label pairs of "
+              "the voxels: C10_pipeline_permutation_invariant (any re-ordering of the voxels: flips, axis permutations, memory orders; every "
+              "matcher) and C10_pipeline_depends_on_foreground_only (adding/removing background voxels: padding, embedding at an offset, cropping "
+              "empty margins; matched input and the threshold matcher) hold for all arrays and configurations, together with the same statements "
+              "for every building block (counts, IoU/Dice/RVD, candidate pairs and scores); ASSD is invariant under translations, axis flips, axis "
+              "permutations and the enclosing box (Props/C07). Memory layout and the semantic-input tie-break are decided by metamorphic "
+              "correspondence on the implementation.")
+LEVEL_NOTE = ("Coq: end-to-end for instance input; for semantic input the component numbering changes under flips (C01 semantic theorem: irrelevant "
+              "without ties; with ties = known finding D15); merge matcher padding invariance by building blocks + correspondence. Axioms only "
+              "through C07's real-valued theorems.")
 TECHNIQUE = "machine-checked proof in Rocq (Coq) (permutation/background invariance, ASSD isometries) + metamorphic correspondence on the implementation"
 
 
